@@ -201,7 +201,11 @@ def check_dispatch(ctx, rule):
                 tnc = T.const(net == 'test')
                 node = _expected_node(cls, parts, tnc)
                 if T.tag(v) != 'obj':
-                    ob.require(False, 'a wallet cannot be built from a %s key' % slip132.LABELS[ver], ffx.where, found=T.show(v, maxdepth=3))
+                    if T.opaques(v):
+                        ob.undecided('from_extended_key is not computable by the evaluator for a %s key (%s)' % (
+                            slip132.LABELS[ver], '; '.join(sorted({o[1] for o in T.opaques(v)}))[:200]), ffx.where)
+                    else:
+                        ob.require(False, 'a wallet cannot be built from a %s key' % slip132.LABELS[ver], ffx.where, found=T.show(v, maxdepth=3))
                     continue
                 wf = T.obj_fields(v)
                 same_term(ob, wf.get('master'), node, '%s: master node has the key type and network of the version prefix'
